@@ -120,11 +120,56 @@ POSITION_PREDICATES = {
 }
 
 
+@st.composite
+def nest_texts(draw):
+    """deep scope chains built on purpose: 2-5 nested class / def levels, three names bound at drawn levels (module,
+    class body, parameter, local) and read at every level and in a comprehension at the innermost one - the shapes in
+    which "which enclosing scope does this read see" has a non-obvious answer (class bodies are skipped, however many)"""
+    names = ["x", "y", "z"]
+    lines = []
+    for n in names:
+        if draw(st.integers(0, 2)):
+            lines.append("%s = 0" % n)
+    depth = draw(st.integers(2, 5))
+    ind = ""
+    for d in range(depth):
+        kind = draw(st.sampled_from(["class", "def", "class", "def", "def"]))
+        if kind == "class":
+            lines.append("%sclass C%d:" % (ind, d))
+        else:
+            params = [n for n in names if draw(st.integers(0, 4)) == 0]
+            lines.append("%sdef f%d(%s):" % (ind, d, ", ".join(["self"] + params)))
+        ind += "    "
+        for n in names:
+            if draw(st.integers(0, 3)) == 0:
+                lines.append("%s%s = %d" % (ind, n, d + 1))
+        if kind == "def" and draw(st.integers(0, 5)) == 0:
+            lines.append("%sglobal %s" % (ind, draw(st.sampled_from(names)))) if not any(l.startswith(ind) and "=" in l for l in lines[-3:]) else None
+        used = [n for n in names if draw(st.booleans())] or [draw(st.sampled_from(names))]
+        lines.append("%su%d = %s" % (ind, d, " + ".join(used)))
+    tail = draw(st.sampled_from(["none", "comp", "lambda_free", "inner_def"]))
+    if tail == "comp":
+        lines.append("%sw = [%s for i in %s]" % (ind, draw(st.sampled_from(names)), draw(st.sampled_from(names))))
+    elif tail == "inner_def":
+        lines.append("%sdef g(self):\n%s    return %s" % (ind, ind, " + ".join(names)))
+    src = "\n".join(l for l in lines if l) + "\n"
+    return src
+
+
+def _compiles(src):
+    try:
+        compile(src, "<nest>", "exec")
+        return True
+    except SyntaxError:
+        return False
+
+
 def strategy(tier):
     return st.one_of(
         srcgen.grammar(profile="binding").map(lambda s: {"src": s, "from": "grammar"}),
         srcgen.grammar(profile="binding").map(lambda s: {"src": s, "from": "grammar"}),
         srcgen.soup().map(lambda s: {"src": s, "from": "soup"}),
+        nest_texts().map(lambda s: {"src": s if _compiles(s) else "x = 0\n", "from": "nest"}),
     )
 
 
